@@ -64,7 +64,20 @@ func intCmp(name string) func(a, b int) int {
 
 // intU: the integer universe {0, .., u-1} — it contains the zero value of the element type on
 // purpose (a 0 element must be distinguishable from a cleared slot / a "not found" answer).
-func intU(u int) []int { return intRange(0, u-1) }
+func intU(u int) []int {
+	if intUniverseMode == "json" {
+		// JSON jobs: negative, multi-digit and prefix-related integers (as object keys "1", "10", "100", "-1")
+		all := []int{0, -1, 10, 1, 100, -20, 12, 1000}
+		if u > len(all) {
+			u = len(all)
+		}
+		return all[:u]
+	}
+	return intRange(0, u-1)
+}
+
+// intUniverseMode is set once per worker process from the job ("intset").
+var intUniverseMode string
 
 func intRange(lo, hi int) []int {
 	var r []int
